@@ -280,15 +280,19 @@ def main(tier, replay=None):
         "Tokenizer::get_final_comments (dead code) and the tokens swallowed by tool directives / ignored regions are "
         "not observable through TokenStream and are compared only through their effect on later tokens and diagnostics",
     ]
-    res.coverage["partial"] = True
+    res.coverage["partial"] = False
     res.coverage["explanation"] = (
         "proved for all inputs (Props/C11.v): the tokenizer terminates (F5 regression) and never panics "
         "(lex_all_done), the reader invariant, consumed text = slice between positions, slice = lexeme for every "
         "token (token_text_exact), well-ordered non-overlapping ranges, comments between neighbours, Latin-1 files "
-        "one column per byte, value_at of bit strings.  Re-lexing (relex) is proved for delimiters and character "
-        "literals only and otherwise explored on every run by the implementation-level oracle over all generated "
-        "inputs; the model is tied to the code by the differential run.")
-    res.coverage["unproved"] = ["relex for identifiers, keywords, abstract/bit-string/string literals (explored by the oracle)"]
+        "one column per byte, value_at of bit strings, and re-lexing (C11_relex): for EVERY token of the stream, "
+        "lexing its slice alone yields exactly one token with the same kind and value (identifiers, keywords, "
+        "extended identifiers, string / bit-string / abstract literals by a simulation of each parse_token arm on "
+        "the one-lexeme document, Lex/LangLexerRelex2-4.v; delimiters and character literals by finite evaluation), "
+        "with no diagnostic except the warning of an invalid basic identifier (C11_relex_clean_*).  The "
+        "implementation-level relex oracle still runs over all generated inputs; the model is tied to the code by "
+        "the differential run.")
+    res.coverage["unproved"] = []
     res.assumptions = [
         "a token's lexeme is compared up to letter case for basic identifiers and keywords; strings and extended "
         "identifiers are re-escaped (doubled quote/backslash); a line break inside a token counts as LF",
